@@ -596,7 +596,7 @@ pub fn score_offset_down(hit: &Hit) -> (ret: isize)
 // @item rust/core/src/search/score.rs :: fn score_rating_up
 pub fn score_rating_up(hit: &Hit) -> (ret: isize)
 {
-    hit.rating as isize
+    (hit.rating as isize) ^ isize::MIN
 }
 // @item rust/core/src/search/score.rs :: fn score_word_len_down
 pub fn score_word_len_down(hit: &Hit) -> (ret: isize)
